@@ -489,8 +489,12 @@ impl std::fmt::Debug for FileId {
 
 /// The next file ID to use. This is global so file IDs do not conflict between different compiler
 /// instances.
+#[cfg(not(apollo_rs_verif))]
 static NEXT: AtomicU64 = AtomicU64::new(INITIAL);
 static INITIAL: u64 = 3;
+/// Verification build only: the same counter behind a recording wrapper (see `__verif_fileid`).
+#[cfg(apollo_rs_verif)]
+static NEXT: __verif_fileid::__VerifAtomicU64 = __verif_fileid::__VerifAtomicU64::new(INITIAL);
 
 const TAG: u64 = 1 << 63;
 const ID_MASK: u64 = !TAG;
@@ -642,5 +646,199 @@ impl std::fmt::Debug for SourceSpan {
             self.end_offset(),
             self.file_id,
         )
+    }
+}
+
+/// Verification hook, compiled only with `RUSTFLAGS="--cfg apollo_rs_verif"`; absent otherwise.
+///
+/// Under the flag the file-id counter `NEXT` is a [`__VerifAtomicU64`]: same methods as `AtomicU64`,
+/// but every operation is reported to an optional callback, once *before* it executes (the callback
+/// may block the calling thread there, which is how an external scheduler replays a chosen
+/// interleaving) and once *after*, with the value read and the value written.
+/// The rest exposes the crate-private `TaggedFileId` packing on raw integers and lets a test
+/// harness place the counter at a chosen value.  Nothing here changes what `FileId::new` does.
+#[cfg(apollo_rs_verif)]
+#[doc(hidden)]
+pub mod __verif_fileid {
+    use super::atomic::Ordering;
+    use super::AtomicU64;
+    use super::FileId;
+    use super::NonZeroU64;
+    use super::TaggedFileId;
+    use std::sync::Arc;
+    use std::sync::RwLock;
+
+    /// One atomic operation on the counter.
+    #[derive(Clone, Copy, Debug, PartialEq, Eq)]
+    pub struct __VerifOp {
+        /// `load`, `store`, `swap`, `fetch_add`, `fetch_sub`, `fetch_max`, `compare_exchange`
+        pub kind: &'static str,
+        /// value stored / added / subtracted / new value of a compare-exchange (0 for `load`)
+        pub operand: u64,
+        /// expected value of a compare-exchange (0 otherwise)
+        pub expected: u64,
+        /// value read by the operation; `None` in the `Before` phase and for `store`
+        pub read: Option<u64>,
+        /// value written by the operation; `None` in the `Before` phase, for `load`,
+        /// and for a failed compare-exchange
+        pub written: Option<u64>,
+    }
+
+    #[derive(Clone, Copy, Debug, PartialEq, Eq)]
+    pub enum __VerifPhase {
+        Before,
+        After,
+    }
+
+    pub type __VerifHook = Arc<dyn Fn(__VerifPhase, &__VerifOp) + Send + Sync>;
+
+    static HOOK: RwLock<Option<__VerifHook>> = RwLock::new(None);
+
+    /// Install (or remove) the callback that observes every atomic operation on the counter.
+    pub fn __verif_set_hook(hook: Option<__VerifHook>) {
+        *HOOK.write().unwrap_or_else(|e| e.into_inner()) = hook;
+    }
+
+    fn hook() -> Option<__VerifHook> {
+        HOOK.read().unwrap_or_else(|e| e.into_inner()).clone()
+    }
+
+    /// Place the counter at `value` without reporting to the callback.
+    pub fn __verif_set_next(value: u64) {
+        super::NEXT.0.store(value, Ordering::SeqCst)
+    }
+
+    /// Current value of the counter, without reporting to the callback.
+    pub fn __verif_get_next() -> u64 {
+        super::NEXT.0.load(Ordering::SeqCst)
+    }
+
+    pub fn __verif_file_id_raw(id: FileId) -> u64 {
+        id.id.get()
+    }
+
+    /// `TaggedFileId::pack(tag, FileId { id })` as a raw integer; `None` for `id == 0`
+    pub fn __verif_tagged_pack(tag: bool, id: u64) -> Option<u64> {
+        let id = NonZeroU64::new(id)?;
+        Some(TaggedFileId::pack(tag, FileId { id }).tag_and_id.get())
+    }
+
+    /// `TaggedFileId::tag` of a raw packed integer; `None` for 0
+    pub fn __verif_tagged_tag(packed: u64) -> Option<bool> {
+        let tag_and_id = NonZeroU64::new(packed)?;
+        Some(TaggedFileId { tag_and_id }.tag())
+    }
+
+    /// `TaggedFileId::file_id` of a raw packed integer; `None` if `packed & !TAG == 0`
+    /// (where the real function would be undefined behaviour)
+    pub fn __verif_tagged_file_id(packed: u64) -> Option<u64> {
+        let tag_and_id = NonZeroU64::new(packed)?;
+        if packed & super::ID_MASK == 0 {
+            return None;
+        }
+        Some(TaggedFileId { tag_and_id }.file_id().id.get())
+    }
+
+    /// `AtomicU64` that reports to the installed callback
+    pub struct __VerifAtomicU64(AtomicU64);
+
+    impl __VerifAtomicU64 {
+        pub const fn new(value: u64) -> Self {
+            Self(AtomicU64::new(value))
+        }
+
+        fn run(
+            &self,
+            kind: &'static str,
+            operand: u64,
+            expected: u64,
+            f: impl FnOnce(&AtomicU64) -> (Option<u64>, Option<u64>),
+        ) -> Option<u64> {
+            let hook = hook();
+            let mut op = __VerifOp {
+                kind,
+                operand,
+                expected,
+                read: None,
+                written: None,
+            };
+            if let Some(h) = &hook {
+                h(__VerifPhase::Before, &op)
+            }
+            (op.read, op.written) = f(&self.0);
+            if let Some(h) = &hook {
+                h(__VerifPhase::After, &op)
+            }
+            op.read
+        }
+
+        pub fn load(&self, order: Ordering) -> u64 {
+            self.run("load", 0, 0, |a| (Some(a.load(order)), None))
+                .unwrap()
+        }
+
+        pub fn store(&self, value: u64, order: Ordering) {
+            self.run("store", value, 0, |a| {
+                a.store(value, order);
+                (None, Some(value))
+            });
+        }
+
+        pub fn swap(&self, value: u64, order: Ordering) -> u64 {
+            self.run("swap", value, 0, |a| (Some(a.swap(value, order)), Some(value)))
+                .unwrap()
+        }
+
+        pub fn fetch_add(&self, value: u64, order: Ordering) -> u64 {
+            self.run("fetch_add", value, 0, |a| {
+                let old = a.fetch_add(value, order);
+                (Some(old), Some(old.wrapping_add(value)))
+            })
+            .unwrap()
+        }
+
+        pub fn fetch_sub(&self, value: u64, order: Ordering) -> u64 {
+            self.run("fetch_sub", value, 0, |a| {
+                let old = a.fetch_sub(value, order);
+                (Some(old), Some(old.wrapping_sub(value)))
+            })
+            .unwrap()
+        }
+
+        pub fn fetch_max(&self, value: u64, order: Ordering) -> u64 {
+            self.run("fetch_max", value, 0, |a| {
+                let old = a.fetch_max(value, order);
+                (Some(old), Some(old.max(value)))
+            })
+            .unwrap()
+        }
+
+        pub fn compare_exchange(
+            &self,
+            current: u64,
+            new: u64,
+            success: Ordering,
+            failure: Ordering,
+        ) -> Result<u64, u64> {
+            let mut result = Err(0);
+            self.run("compare_exchange", new, current, |a| {
+                result = a.compare_exchange(current, new, success, failure);
+                match result {
+                    Ok(old) => (Some(old), Some(new)),
+                    Err(old) => (Some(old), None),
+                }
+            });
+            result
+        }
+
+        pub fn compare_exchange_weak(
+            &self,
+            current: u64,
+            new: u64,
+            success: Ordering,
+            failure: Ordering,
+        ) -> Result<u64, u64> {
+            self.compare_exchange(current, new, success, failure)
+        }
     }
 }
